@@ -92,6 +92,17 @@ class C08(XsProp):
                 for b in bodies:
                     src = ' '.join([' '.join(str(i + 1) for i in range(k)), o, b, c]).strip()
                     cs.append('xp limits 600 80 40 | eval %s | pretty | eval %s | pretty' % (hexsrc(src), hexsrc('1 2 + depth')))
+        # (b'') the cursor variables written directly (input replaced by a shorter one, offset beyond the end, non-bit-string input,
+        # negative / huge offset), then every reading word
+        readers = ['u8', 'i16le', '3 bits', '2 bytes', '5 int', '5 uint', 'f32', '32 float', '|ff| magic', 'nulbytestr', 'cstr', 'remain', 'offset',
+                   '4 seek', 'read-all', 'dump', 'close-bitstr', '|aa| open-bitstr u8']
+        broken = ['|01| ! input', '1000 ! offset', '-5 ! offset', '"str" ! input', 'nil ! input', '18446744073709551616 ! offset', '|| ! input',
+                  '[ 1 ] ! offset', '7 ! offset |0102| ! input']
+        for b in broken:
+            for r_ in readers:
+                for first in ('u16 drop', ''):
+                    cs.append('xp limits 600 80 40 | input a50f33cc0100ff41420043 0 88 | eval %s | pretty | eval %s | pretty' % (
+                        hexsrc((first + ' ' + b).strip()), hexsrc(r_)))
         # (c) API sequences
         for _ in range(500 if not thorough else 20000):
             steps = ['xp limits 500 80 40']
